@@ -394,6 +394,18 @@ func TestC19Store(t *testing.T) {
 				}
 			},
 			"": func(t *rapid.T) {
+				// The members are not read after every operation: what a
+				// stored resource exposes must not depend on whether somebody
+				// looked at it between two operations.
+				if col.Len() != len(model.items) {
+					fail("Len() = %d, the list has %d", col.Len(), len(model.items))
+				}
+
+				if rapid.IntRange(0, 2).Draw(t, "look") == 0 {
+					history = append(history, "(not read)")
+					return
+				}
+
 				{
 					if col.Len() != len(model.items) {
 						fail("Len() = %d, the list has %d", col.Len(), len(model.items))
@@ -538,6 +550,38 @@ func TestC19Regress(t *testing.T) {
 
 		if col.At(0).Get("p") != 5 || col.At(0).Get("z") != "" {
 			t.Fatalf("C19 violated: values after SetType: p=%v z=%v", col.At(0).Get("p"), col.At(0).Get("z"))
+		}
+	})
+
+	// A field that leaves the type and comes back is a field added after the
+	// resource was stored, whether or not the resource was read in between.
+	t.Run("field-removed-and-added-back-unread", func(t *testing.T) {
+		typ := jsonapi.Type{Name: "t", Attrs: map[string]jsonapi.Attr{"f": {Name: "f", Type: jsonapi.AttrTypeInt}}, Rels: map[string]jsonapi.Rel{"o": {FromType: "t", FromName: "o", ToType: "t", ToOne: true}}}
+		col := &jsonapi.SoftCollection{}
+		col.SetType(&typ)
+
+		res := &jsonapi.SoftResource{Type: &jsonapi.Type{Name: "t", Attrs: map[string]jsonapi.Attr{"f": {Name: "f", Type: jsonapi.AttrTypeInt}}, Rels: map[string]jsonapi.Rel{"o": {FromType: "t", FromName: "o", ToType: "t", ToOne: true}}}}
+		res.Set("id", "1")
+		res.Set("f", 5)
+		res.Set("o", "x")
+		col.Add(res)
+
+		col.SetType(&jsonapi.Type{Name: "t", Attrs: map[string]jsonapi.Attr{}, Rels: map[string]jsonapi.Rel{}})
+
+		if err := col.AddAttr(jsonapi.Attr{Name: "f", Type: jsonapi.AttrTypeInt}); err != nil {
+			t.Fatal(err)
+		}
+
+		if err := col.AddRel(jsonapi.Rel{FromType: "t", FromName: "o", ToType: "t"}); err != nil {
+			t.Fatal(err)
+		}
+
+		if got := col.At(0).Get("f"); got != 0 {
+			t.Fatalf("C19 violated: attribute taken out by SetType and added back reads %v, want 0", got)
+		}
+
+		if got, ok := col.At(0).Get("o").([]string); !ok || len(got) != 0 {
+			t.Fatalf("C19 violated: relationship taken out by SetType and added back as to-many reads %#v, want an empty list", col.At(0).Get("o"))
 		}
 	})
 }
